@@ -15,6 +15,7 @@ def self_field_of(fl, op):
 
 
 def run(db, chk):
+    attribute_level_rule(db, chk)
     f = db.one(r"^gix_fs::stack::<impl gix_fs::Stack>::make_relative_path_current$")
     fl = Flow(f)
     pushes = f.calls_to(r"stack::Delegate::push$")
@@ -89,3 +90,25 @@ def run(db, chk):
         chk.ob("P4 pop-loop", "pop_directory under current_is_directory test", guarded, "", c.where(), key="P4|guard")
         sets = any(bi in body and pl[0] == 1 and ".current_is_directory" in pl and rv[0] == "use" and rv[1].get("v") == 1 for bi, si, pl, rv, ln, mc in f.assigns())
         chk.ob("P4 pop-loop", "sets current_is_directory after popping", sets, "", c.where(), key="P4|set-flag")
+
+
+def attribute_level_rule(db, chk):
+    """one pattern-list level per directory: Attributes::pop_directory always pops one level, so Attributes::push_directory has to push exactly
+    one for every non-root directory.  It tracks that with a flag (`added`); the flag may be set to true only on paths that actually added a
+    pattern list - an assignment `added = true` that is reachable from the entry without passing add_patterns_buffer/add_patterns_file means a
+    directory can be entered without a level and leaving it pops its parent's."""
+    f = db.one(r"^gix_worktree::stack::state::attributes::<impl gix_worktree::stack::state::Attributes>::push_directory$")
+    flags = f.locals_named("added")
+    adds = [c for c in f.calls() if c.is_(r"::add_patterns_buffer$|::add_patterns_file$")]
+    pops = db.one(r"^gix_worktree::stack::state::attributes::<impl gix_worktree::stack::state::Attributes>::pop_directory$").calls_to(r"::pop_pattern_list$")
+    chk.floor("Attributes::push_directory: `added` flag / pattern-list additions / pop", min(len(flags), len(adds), len(pops)), 1)
+    n = 0
+    for bi, si, pl, rv, ln, mc in f.assigns():
+        if len(pl) == 1 and pl[0] in flags and rv[0] == "use" and "p" not in rv[1] and rv[1].get("v") == 1:
+            n += 1
+            # the nearest preceding decision point: the assignment must not be reachable from entry when all additions are removed
+            r = f.reach_from(0, avoid=[c.block for c in adds])
+            chk.ob("level-flag-set-only-after-push", "Attributes::push_directory `added = true`@%d" % ln, bi not in r,
+                   "`added` becomes true on a path that added no pattern list: the directory gets no stack level, and pop_directory() removes the level of its parent when it is left",
+                   "%s:%d" % (f.file, ln), key="attr-level|push_directory")
+    chk.floor("Attributes::push_directory: `added = true` assignments", n, 1)
